@@ -75,6 +75,7 @@ var c05privV = reflect.ValueOf(c05privT{7, 8, "nm", regStrerT{"rs"}, 3, 42, "str
 
 var (
 	c05IntVar  = 5
+	c05IntPtr  = &c05IntVar
 	c05PtrSafe = &safePtrT{1}
 	c05MapSafe = safeMapT{"k": 1}
 	c05SlSafe  = safeSliceT{1, 2}
@@ -120,6 +121,19 @@ func (m mark) Format(s fmt.State, verb rune) {
 	s.Write([]byte{2})
 }
 
+// markGoPtr is the fmt-side stand-in of an unsafe pointer-like leaf under %#v: Go syntax prints "(type)(address)";
+// the type and the punctuation are structure, only the address is the value's extent.
+type markGoPtr struct{ p interface{} }
+
+func (m markGoPtr) Format(s fmt.State, verb rune) {
+	v := reflect.ValueOf(m.p)
+	if v.IsNil() {
+		fmt.Fprintf(s, "(%s)(nil)", v.Type())
+		return
+	}
+	fmt.Fprintf(s, "(%s)(\x01%#x\x02)", v.Type(), v.Pointer())
+}
+
 // These let a mark sit in a slot of type fmt.Stringer / error / SafeValue on the fmt side; fmt never calls
 // them (Formatter comes first).
 func (m mark) String() string { return "" }
@@ -148,6 +162,7 @@ type c05Leaf struct {
 	OnlyP    bool        // leaf only under %p (a map/slice/pointer, whose %v rendering is not one extent)
 	OnlySafe bool        // composite leaf: evaluated only in configurations where it is safe as a whole
 	TopOnly  bool        // pointer to a composite: prints its pointee at top level only
+	SelfMark bool        // Fmt already brackets its own unsafe extent (used as is on the fmt side)
 }
 
 var c05LeafCache = c05MakeLeaves()
@@ -224,6 +239,11 @@ func c05MakeLeaves() []c05Leaf {
 	add(c05Leaf{Name: "registrable map type", Redact: regMapT{"k": 1}, Fmt: regMapT{"k": 1}, RegIdx: 2, OnlySafe: true})
 	add(c05Leaf{Name: "pointer to registrable map type", Redact: &regMapT{"k": 1}, Fmt: &regMapT{"k": 1}, RegIdx: 2, OnlySafe: true, TopOnly: true})
 	add(c05Leaf{Name: "Safe(pointer to plain struct)", Redact: redact.Safe(&structInner{65, 66}), Fmt: &structInner{65, 66}, Safe: true, RegIdx: -1, TopOnly: true})
+	// pointer-like kinds under %#v (Go syntax): "(type)(address)" - only the address is unsafe
+	add(c05Leaf{Name: "unsafe *int under %#v", Redact: &c05IntVar, Fmt: markGoPtr{&c05IntVar}, RegIdx: -1, GoStr: true, SelfMark: true})
+	add(c05Leaf{Name: "nil *int under %#v", Redact: (*int)(nil), Fmt: markGoPtr{(*int)(nil)}, RegIdx: -1, GoStr: true, SelfMark: true})
+	add(c05Leaf{Name: "unsafe chan under %#v", Redact: c05ChanU, Fmt: markGoPtr{c05ChanU}, RegIdx: -1, GoStr: true, SelfMark: true})
+	add(c05Leaf{Name: "unsafe **int under %#v", Redact: &c05IntPtr, Fmt: markGoPtr{&c05IntPtr}, RegIdx: -1, GoStr: true, SelfMark: true})
 	// pointer-like kinds: %p prints their address through a path of its own
 	add(c05Leaf{Name: "unsafe *int", Redact: &c05IntVar, Fmt: &c05IntVar, RegIdx: -1, OnlyP: true})
 	add(c05Leaf{Name: "unsafe map", Redact: c05MapU, Fmt: c05MapU, RegIdx: -1, OnlyP: true})
@@ -246,7 +266,7 @@ func (l *c05Leaf) isSafe(cfg int) bool {
 }
 
 func (l *c05Leaf) fmtOperand(cfg int) interface{} {
-	if l.isSafe(cfg) {
+	if l.isSafe(cfg) || l.SelfMark {
 		return l.Fmt
 	}
 	return mark{l.Fmt}
@@ -453,6 +473,9 @@ func c05Eval(cs c05Case, seen func(string)) (string, string) {
 		if (la.GoStr || (lb.GoStr && (sh.Two || cs.Shape >= 2))) && !(d.Verb == 'v' && d.Flags&4 != 0) {
 			return "", ""
 		}
+		if (la.SelfMark || (lb.SelfMark && (sh.Two || cs.Shape >= 2))) && (d.Wid != 0 || d.Prec != 0 || d.Flags&^4 != 0) {
+			return "", "" // the stand-in reproduces plain %#v only
+		}
 	}
 	var format string
 	var rargs, fargs []interface{}
@@ -476,7 +499,7 @@ func c05Eval(cs c05Case, seen func(string)) (string, string) {
 		// fmt sees the bare container (Safe() prints like its operand under fmt, C14) with bare leaves;
 		// a leaf that is itself Unsafe(...) is skipped: inside Safe() the outermost wrapper decides (C06)
 		// (a leaf that is itself Unsafe(...) is public too: inside a value declared safe as a whole the outermost declaration decides)
-		if la.Name == "SafeFormatter" || lb.Name == "SafeFormatter" {
+		if la.Name == "SafeFormatter" || lb.Name == "SafeFormatter" || la.SelfMark || lb.SelfMark {
 			return "", ""
 		}
 		switch cs.Shape {
